@@ -97,4 +97,15 @@ PROPS = {
         'crosscheck_functions': [],
         'ground': ['c17'],
     },
+    'C01': {
+        'level': 'proof',
+        'functions': [
+            'pyx12.segment.Segment.__init__',
+            'pyx12.segment.Segment.format',
+            'pyx12.x12file.X12Reader.__iter__',
+        ],
+        'assumed_contracts': ['abs:pyx12.segment.Segment.__init__'],
+        'crosscheck_functions': [],
+        'bounded': ['contracts.rawx12file:bounded_tokenise'],
+    },
 }
